@@ -108,6 +108,8 @@ class Ctx:
         self.facts: list[Fact] = []
         self.dom: list = []
         self.dom_simple: list = []
+        self.angle_links: list = []  # (coarse cos var, coarse sin var, polynomial in the finer atom's cos/sin)
+        self.fp_inputs: dict = {}  # input name -> z3 Float64 constant (FP lane)
         self.inputs: dict[str, tuple] = {}  # name -> (z3 var, kind)
         self.keep: list = []  # keep z3 terms alive (AST ids are reused after free)
         self.cache: dict = {}
@@ -339,14 +341,17 @@ class Ctx:
             active_gens = set(self.gen_names)
         # relevance = the connected component (facts sharing generators) of the goal's generators:
         # a satisfied fact still ties the values of all its generators together
-        changed = True
-        while changed:
-            changed = False
-            for f in pool:
-                g = self.fact_gens(f)
-                if g and (g & active_gens) and not (g <= active_gens):
-                    active_gens |= g
-                    changed = True
+        def close():
+            changed = True
+            while changed:
+                changed = False
+                for f in pool:
+                    g = self.fact_gens(f)
+                    if g and (g & active_gens) and not (g <= active_gens):
+                        active_gens.update(g)
+                        changed = True
+
+        close()
         added: list[Fact] = []
         added_ids = set()
         deadline = time.time() + 4 * timeout_ms / 1000.0
@@ -367,8 +372,8 @@ class Ctx:
                 if id(f) in added_ids:
                     continue
                 g = self.fact_gens(f)
-                if g and not (g & active_gens):
-                    continue
+                if f.kind != "dom" and g and not (g & active_gens):
+                    continue  # (domain assumptions constrain the inputs: always relevant)
                 try:
                     ok = z3.is_true(m.eval(f.f, model_completion=True))
                 except z3.Z3Exception:
@@ -383,12 +388,13 @@ class Ctx:
             for f in chosen:
                 added.append(f)
                 added_ids.add(id(f))
-                active_gens |= self.fact_gens(f)
+                active_gens.update(self.fact_gens(f))
+            close()
             if it >= max_iter or time.time() > deadline:
                 break
         # fallback: every relevant fact at once
         if last != "unsat":
-            rel_all = [f for f in pool if (not self.fact_gens(f)) or (self.fact_gens(f) & active_gens)]
+            rel_all = [f for f in pool if f.kind == "dom" or (not self.fact_gens(f)) or (self.fact_gens(f) & active_gens)]
             r, s = self._check(base + [f.f for f in rel_all], timeout_ms, kind + "_all")
             if r == "unsat":
                 return "unsat", None, {"iters": it, "facts": len(rel_all), "fallback": True}
@@ -997,9 +1003,11 @@ def cs_of_atom(at, den):
             if d2 % den == 0:
                 cc, ss = mulang(c2, s2, d2 // den)
                 c.add_fact(z3.And((Sym(cv) == cc).t, (Sym(sv) == ss).t), "rel", "multiple-angle")
+                c.angle_links.append((cv, sv, cc, ss))
             elif den % d2 == 0:
                 cc, ss = mulang(Sym(cv), Sym(sv), den // d2)
                 c.add_fact(z3.And((c2 == cc).t, (s2 == ss).t), "rel", "multiple-angle")
+                c.angle_links.append((c2.n, s2.n, cc, ss))
     return Sym(cv), Sym(sv)
 
 
@@ -1134,7 +1142,10 @@ class SymLib:
             c.stats.merge_q += 1
             if c.entails(N * D2 == N2 * D, kind="merge"):
                 return Sym(r, None, k % 2 == 0)
-        # even powers: sqrt(e^2) with e of known sign
+        if k == 2:
+            e = self._perfect_square(a, N, D)
+            if e is not None:
+                return e
         r = c.fresh("r")
 
         def _rootval(kk, a=a, k=k):
@@ -1159,6 +1170,65 @@ class SymLib:
         else:
             c.add_fact(rk * D == N, "rel", f"root{k}")
         return Sym(r, None, k % 2 == 0)
+
+    def _perfect_square(self, a, N, D):
+        """sqrt(N/D) = e for a product e of known non-negative quantities?  Candidates are found by
+        comparing numeric values at the shadow points (a heuristic); a candidate is used only after the
+        solver has shown e >= 0 and e*e == N/D."""
+        import mpmath as mp
+
+        c = ctx()
+        try:
+            target = []
+            for k in range(len(c.shadows)):
+                if not c.shadow_ok(k):
+                    return None
+                q = c.num(a.n, k) / c.num(a.d, k)
+                if q is None or q < 0:
+                    return None
+                target.append(mp.sqrt(q))
+        except Exception:
+            return None
+        atoms = []
+        for nm, (v, kind) in c.inputs.items():
+            if kind in ("pos", "nonneg"):
+                atoms.append(Sym(v, None, True))
+        for (r, N2, D2, k2) in c.sqrts:
+            if k2 == 2:
+                atoms.append(Sym(r, None, True))
+        for (aid, den), (t, E) in list(c.exps.items()):
+            Es = Sym(E, None, True)
+            atoms += [Es, 1 / Es, (Es + 1 / Es) / 2]
+        for (aid, den), (t, cs, sn) in list(c.angles.items()):
+            atoms += [sn, cs, 1 / sn, 1 / cs, -sn, -cs]
+        atoms = atoms[:40]
+        vals = []
+        for e in atoms:
+            try:
+                vv = [c.num(e.n, k) / c.num(e.d, k) for k in range(len(c.shadows))]
+                vals.append(vv if all(x is not None and x > 0 for x in vv) else None)
+            except Exception:
+                vals.append(None)
+
+        def match(vv):
+            return all(abs(vv[k] - target[k]) <= mp.mpf("1e-25") * (1 + abs(target[k])) for k in range(len(target)))
+
+        cands = []
+        for i, e in enumerate(atoms):
+            if vals[i] is None:
+                continue
+            if match(vals[i]):
+                cands.append(e)
+            for j in range(i, len(atoms)):
+                if vals[j] is None:
+                    continue
+                if match([vals[i][k] * vals[j][k] for k in range(len(target))]):
+                    cands.append(e * atoms[j])
+        for e in cands[:3]:
+            c.stats.merge_q += 1
+            if c.entails(z3.And((e >= 0).t, (e * e == a).t), kind="merge"):
+                return Sym(e.n, e.d, True)
+        return None
 
     def sqrt(self, a):
         if isinstance(a, Singular):
